@@ -20,6 +20,11 @@ SPEC = dict(
          'nothing / write / suspend / suspend+write / write+suspend / remove another client whose read event is selected in the same batch - with or without peer data made pending just before '
          'the poll round whose send completes the drain (one event carrying read and write readiness); a client suspended by onWrite is then talked to by its peer (nothing may be delivered), '
          'resumed and must get the pending bytes. Enumerates action x pending x 2 size classes x every outcome sequence up to length N (quick 4, thorough 5). '
+         'hangup-exh: peer-side events while the client is suspended - the peer sends data / shuts down its write side / shuts down both directions / closes / resets (SO_LINGER 0) / closes '
+         'with unread data - on a pair (AF_UNIX), an accepted and a connected (loopback TCP) client, with an empty send backlog (client registered in the poll set without events) or a pending one '
+         '(first send partial or would-block), inbound bytes pending or not, suspend before or after the write; the loop runs (no onRead may reach the suspended client; a poll round that dispatched '
+         'nothing while such a hung-up client exists counts as an idle point), then resume / run again + resume / write + resume / left to the end of the case: after resume onRead must come, '
+         'an orderly close must deliver every inbound byte and the client must be told (onClosed). Enumerates origin x event x backlog x pending x order x follow-up, N repetitions with fresh sizes / plans (quick 6, thorough 40). '
          'rand / accept-rand: half of the cases carry the same two scripts (1..6 mid-drain writes per client, a random onWrite action) drawn from a separate stream. '
          'distinct = hash of the observed (send length, return) sequence and the operation sequence; non-trivial = at least one send took less than offered (partial or EAGAIN) '
          '(rand/kernel: and the backlog drained at least once). After every send: offered bytes == next accepted bytes; after every write and at every idle point: '
@@ -27,13 +32,16 @@ SPEC = dict(
     assumptions=['ASan/UBSan on the backlog Buffer; library ASSERTs enabled (-DDEBUG)',
                  'write() with size 0 is outside the statement (send() returns 0, which the client treats as a closed connection)',
                  'a hard send error in the write-ready path drops the unsent backlog and closes the client (onClosed): only bytes reported as handed to the OS must reach the peer',
-                 'a peer that closes while its client is suspended without backlog is not generated (the loop then spins on EPOLLHUP without dispatching; not a statement of C13)',
+                 'a peer that hangs up while its client is suspended without backlog is generated by hangup-exh only: the unchanged loop then spins on EPOLLHUP without dispatching anything '
+                 '(not a statement of C13); the harness recognises a poll round that dispatched nothing (no callback, send or recv between two epoll_wait calls, while a suspended client without '
+                 'requested events is hung up according to poll()) and treats it as an idle point - bounded by loop rounds, never by time. What is handed to the OS after the peer has closed or shut down '
+                 'both directions cannot be verified at the peer; inbound completeness after resume is demanded only when the stream ended in order and the client has not sent since',
                  'accepted / connected clients are loopback TCP sockets: before the application closes such a client (remove() in onClosed) the peer reads what the kernel has already taken - '
                  'closing a TCP socket with unread inbound data is an abortive close and the kernel then discards bytes it accepted from send() but has not delivered (not a library matter)',
                  'loopback TCP delivery is asynchronous: where the harness itself put bytes in flight it waits (bounded, real time) until its own poll() sees them before judging the loop; '
                  'a readiness verdict on a TCP client is a violation only if the needed event bit is missing from the epoll registration observed at the epoll_ctl boundary, '
                  'with the registration in place the wake-up is re-polled (inconclusive after 10 s, never a violation); the harness-owned TCP ends use TCP_NODELAY / TCP_QUICKACK'],
-    technique='libc interposition (send/recv/epoll_wait/clock_gettime), virtual time, reference byte-stream model, independent poll() oracle',
+    technique='libc interposition (send/recv/epoll_wait/clock_gettime), virtual time, reference byte-stream model, independent poll() oracle, peer hang-up injection',
     exhaustive={Q: False, T: False},   # the outcome-sequence x size-class sub-space (plan-exh, plan-err) is enumerated completely; sizes, venues and scripts are sampled
     jobs=[
         job('plan-exh', 'h_server_write', 'plan-exh', cases=-1, scale={Q: 4, T: 6}, procs=16, sources=SRC),
@@ -44,6 +52,7 @@ SPEC = dict(
         job('accept-exh', 'h_server_write', 'accept-exh', cases=-1, scale={Q: 3, T: 5}, procs=16, sources=SRC),
         job('accept-rand', 'h_server_write', 'accept-rand', cases={Q: 4000, T: 30000}, procs=16, sources=SRC),
         job('accept-kernel', 'h_server_write', 'accept-kernel', cases={Q: 600, T: 4000}, procs=16, sources=SRC),
+        job('hangup-exh', 'h_server_write', 'hangup-exh', cases=-1, scale={Q: 6, T: 40}, procs=16, sources=SRC),
     ],
     floors={Q: dict(cases=6000, plans_fully_consumed=2808, send_calls=90000, send_partial=60000, send_eagain=6000, send_error=700, backlog_drained=9000, onWrite=9000, writes_append_path=2500,
                     postponed_checks=18000, backlog_size_checks=200000, peer_bytes_verified=1200000000, independent_poll_checks=150000, streams_verified_end_to_end=6000,
@@ -56,7 +65,10 @@ SPEC = dict(
                     onWrite_acts=15000, suspends_in_onWrite=7500, writes_in_onWrite_act=7500, writes_in_onWrite_act_leaving_backlog=2800, peer_data_injected_before_draining_poll=8000,
                     events_readable_and_writable_with_onWrite_suspend_scripted=8000, followups_after_onWrite_suspend=5500, removes_in_callback=2200, remove_while_event_selected=1500,
                     rand_cases_with_drain_scripts=9000,
-                    **{'set:send_outcomes': 12, 'set:write_venues': 9, 'set:fresh_client_acts': 24, 'set:onWrite_acts': 20, 'set:buffer_append_branches': 5}),
+                    hangup_cases=5184, peer_events_on_suspended_client=5184, hangups_on_suspended_client_registered_without_events=750, hangups_on_suspended_client_with_backlog=1450,
+                    end_of_stream_pending_on_suspended_client=1900, suspended_clients_kept_quiet_through_peer_event=2800, resumes_after_peer_event=1800,
+                    resume_after_peer_event_delivered_onRead=1800, resume_after_orderly_close_read_everything=800, peer_closed_with_unread_bytes=500,
+                    **{'set:send_outcomes': 12, 'set:write_venues': 9, 'set:fresh_client_acts': 24, 'set:onWrite_acts': 20, 'set:buffer_append_branches': 5, 'set:suspended_peer_events': 60}),
             T: dict(cases=160000, plans_fully_consumed=70308, send_calls=2300000, send_partial=1400000, send_eagain=190000, send_error=19000, backlog_drained=250000, onWrite=250000, writes_append_path=70000,
                     postponed_checks=490000, backlog_size_checks=5500000, peer_bytes_verified=36000000000, independent_poll_checks=3600000, streams_verified_end_to_end=160000,
                     suspend_while_event_selected=6000, resume_with_pending_data=60000,
@@ -68,5 +80,8 @@ SPEC = dict(
                     onWrite_acts=76000, suspends_in_onWrite=38000, writes_in_onWrite_act=38000, writes_in_onWrite_act_leaving_backlog=16000, peer_data_injected_before_draining_poll=39000,
                     events_readable_and_writable_with_onWrite_suspend_scripted=45000, followups_after_onWrite_suspend=28000, removes_in_callback=11000, remove_while_event_selected=8500,
                     rand_cases_with_drain_scripts=45000,
-                    **{'set:send_outcomes': 12, 'set:write_venues': 9, 'set:fresh_client_acts': 24, 'set:onWrite_acts': 24, 'set:buffer_append_branches': 5})},
+                    hangup_cases=34560, peer_events_on_suspended_client=34560, hangups_on_suspended_client_registered_without_events=5000, hangups_on_suspended_client_with_backlog=9600,
+                    end_of_stream_pending_on_suspended_client=12500, suspended_clients_kept_quiet_through_peer_event=18000, resumes_after_peer_event=12000,
+                    resume_after_peer_event_delivered_onRead=12000, resume_after_orderly_close_read_everything=5000, peer_closed_with_unread_bytes=3500,
+                    **{'set:send_outcomes': 12, 'set:write_venues': 9, 'set:fresh_client_acts': 24, 'set:onWrite_acts': 24, 'set:buffer_append_branches': 5, 'set:suspended_peer_events': 60})},
 )
